@@ -77,9 +77,11 @@ func (d *FileDriver) Init() error {
 }
 
 func (d *FileDriver) Send(key, data []byte) error {
+	// the read lock is held until the write is done, so that a rotation cannot close
+	// the file between picking the writer and writing to it
 	d.lock.RLock()
+	defer d.lock.RUnlock()
 	w := d.w
-	d.lock.RUnlock()
 	verifSched("file.send.have_writer")
 	_, err := fmt.Fprint(w, string(data)+d.lineSeparator)
 	return err
